@@ -828,7 +828,7 @@ func (v *ValidationExpr) Merge(other *ValidationExpr) {
 	if v.Minimum == nil || (other.Minimum != nil && *v.Minimum > *other.Minimum) {
 		v.Minimum = other.Minimum
 	}
-	if v.ExclusiveMaximum == nil || (other.ExclusiveMaximum != nil && *v.ExclusiveMaximum > *other.ExclusiveMaximum) {
+	if v.ExclusiveMaximum == nil || (other.ExclusiveMaximum != nil && *v.ExclusiveMaximum < *other.ExclusiveMaximum) {
 		v.ExclusiveMaximum = other.ExclusiveMaximum
 	}
 	if v.Maximum == nil || (other.Maximum != nil && *v.Maximum < *other.Maximum) {
